@@ -399,6 +399,15 @@ def run_case(case, obs):
     model.scores(normalized=True)
     s1, s2 = model.scores()
     p1, p2 = model.components()
+    for i_, (s_, c_) in enumerate(((s1, c1), (s2, c2))):
+        own = "time" in s_.dims and np.array_equal(np.sort(np.asarray(s_["time"].values)), np.sort(np.asarray(c_["time"])))
+        if not obs.check(
+            "scores_labelled_by_own_samples",
+            bool(own),
+            f"scores of field {i_ + 1} are not labelled by that field's own sample coordinates",
+            tags={"op": "scores", "symptom": "scores_labels", "field": f"f{i_}"},
+        ):
+            return
     S1 = xu.sample_matrix(s1.sortby("mode"), ["time"], c1)
     S2 = xu.sample_matrix(s2.sortby("mode"), ["time"], c2)
     P1 = xu.feature_matrix(p1.sortby("mode"), b["fdims"][0], c1)
